@@ -965,6 +965,9 @@ pub struct ImportCase {
     pub form: usize,
     pub p_state: usize,
     pub q_state: usize,
+    /// "after unrelated work": on the same thread a first parse of `m := import "p"; m` ran while p
+    /// was in this state (its outcome is ignored); then p is put into `p_state` and the case runs
+    pub before: Option<usize>,
     /// fault at seam call index (0 = reading p, 1 = next read) or None
     pub fault: Option<(usize, i32)>,
 }
@@ -989,10 +992,30 @@ pub fn run_import_case(case: &ImportCase, key_seed: u64) -> RunReport {
         if let Some(n) = module_node(case.q_state) {
             o.nodes.insert("q".into(), n);
         }
+        if let Some(b) = case.before {
+            // first parse with p in another state, same thread; then the file changes
+            let mut first = SimOs::new();
+            if let Some(n) = module_node(b) {
+                first.nodes.insert("p".into(), n);
+            }
+            if let Some(n) = module_node(case.q_state) {
+                first.nodes.insert("q".into(), n);
+            }
+            os::install(first);
+            let interp0 = Interpreter::with_stdlib();
+            let _ = guarded(|| Code::parse(&interp0, IMPORT_FORMS[0]).map(|c| c.exec()));
+            let _ = guarded(|| Code::parse(&interp0, IMPORT_FORMS[6]).map(|c| c.exec()));
+            os::uninstall();
+        }
         if let Some((i, e)) = case.fault {
             if i == 100 {
                 o.faults.insert(0, FaultSpec { errno: e, torn: 0 });
                 o.faults.insert(1, FaultSpec { errno: e, torn: 0 });
+            } else if i == 200 {
+                // persistent: every read of this parse fails the same way
+                for k in 0..24 {
+                    o.faults.insert(k, FaultSpec { errno: e, torn: 0 });
+                }
             } else {
                 o.faults.insert(i, FaultSpec { errno: e, torn: 0 });
             }
@@ -1000,7 +1023,13 @@ pub fn run_import_case(case: &ImportCase, key_seed: u64) -> RunReport {
         os::install(o);
         let interp = Interpreter::with_stdlib();
         let text = IMPORT_FORMS[case.form];
-        let desc = format!("`{text}` with p = {}, q = {}, fault = {:?}", MODULE_STATES[case.p_state].0, MODULE_STATES[case.q_state].0, case.fault);
+        let desc = format!(
+            "`{text}` with p = {}, q = {}, fault = {:?}{}",
+            MODULE_STATES[case.p_state].0,
+            MODULE_STATES[case.q_state].0,
+            case.fault,
+            case.before.map(|b| format!(", after a parse on the same thread while p was {}", MODULE_STATES[b].0)).unwrap_or_default()
+        );
         rep.events = 1;
         let parsed = guarded(|| Code::parse(&interp, text));
         let calls: Vec<os::Call> = os::with(|o| o.calls.clone()).unwrap();
@@ -1015,6 +1044,19 @@ pub fn run_import_case(case: &ImportCase, key_seed: u64) -> RunReport {
             }
             Ok(Err(e)) => {
                 rep.log.push(format!("{desc} -> Err {}", cerror(&e)));
+                // a readable, well-formed file imported without any fault: the import must succeed
+                let q_ok = MODULE_STATES[case.p_state].0 != "nested" || module_names(MODULE_STATES[case.q_state].0).is_some();
+                // (forms 6 and 8 use the members a / s / f, which only the "valid" file declares)
+                let uses_members = matches!(case.form, 6 | 8);
+                if case.fault.is_none()
+                    && case.form != 7
+                    && module_names(MODULE_STATES[case.p_state].0).is_some()
+                    && q_ok
+                    && (!uses_members || MODULE_STATES[case.p_state].0 == "valid")
+                {
+                    rep.violation = Some(("readable-import-rejected".into(), format!("{desc}: every file is readable and well-formed, but parsing reports {}", cerror(&e))));
+                    return rep;
+                }
                 // a failed read of the first file read must surface as an IO error of that kind
                 if let Some(c) = calls.first() {
                     if let CallResult::Err(kind, _) = &c.result {
@@ -1113,14 +1155,30 @@ pub fn import_cases() -> Vec<ImportCase> {
         f
     };
     // the same errno on the first AND the second read (retry logic): encoded as index 100 + errno
-    let double: Vec<Option<(usize, i32)>> = [libc::EINTR, libc::EAGAIN, libc::EIO].iter().map(|e| Some((100, *e))).collect();
+    let mut double: Vec<Option<(usize, i32)>> = [libc::EINTR, libc::EAGAIN, libc::EIO].iter().map(|e| Some((100, *e))).collect();
+    // the same errno on EVERY read of the parse (a retry loop runs to its end): index 200
+    for (e, _) in ERRNOS {
+        double.push(Some((200, *e)));
+    }
     for form in 0..IMPORT_FORMS.len() {
         for p in 0..MODULE_STATES.len() {
             let qs: Vec<usize> = if p == nested || form == 7 { (0..MODULE_STATES.len()).filter(|q| *q != nested).collect() } else { vec![0] };
             for q in qs {
                 for f in fault_opts.iter().chain(double.iter()) {
-                    v.push(ImportCase { form, p_state: p, q_state: q, fault: *f });
+                    v.push(ImportCase { form, p_state: p, q_state: q, fault: *f, before: None });
                 }
+            }
+        }
+    }
+    // history on the thread: an earlier parse saw p in another state (a failing or a different file)
+    for form in [0usize, 1, 6, 9] {
+        for before in 0..MODULE_STATES.len() {
+            for p in 0..MODULE_STATES.len() {
+                if before == p || before == nested {
+                    continue;
+                }
+                let q = if p == nested { 3 } else { 0 };
+                v.push(ImportCase { form, p_state: p, q_state: q, fault: None, before: Some(before) });
             }
         }
     }
@@ -1129,7 +1187,7 @@ pub fn import_cases() -> Vec<ImportCase> {
 
 pub fn import_case_json(c: &ImportCase, boot_seed: u64, key_seed: u64) -> Value {
     json!({"sim": "ossim-import", "boot_seed": boot_seed, "key_seed": key_seed, "form": c.form, "p_state": c.p_state, "q_state": c.q_state,
-           "fault": c.fault.map(|(i, e)| json!([i, e])), "program": IMPORT_FORMS[c.form], "p": MODULE_STATES[c.p_state].0, "q": MODULE_STATES[c.q_state].0})
+           "fault": c.fault.map(|(i, e)| json!([i, e])), "before": c.before, "program": IMPORT_FORMS[c.form], "p": MODULE_STATES[c.p_state].0, "q": MODULE_STATES[c.q_state].0})
 }
 
 pub fn import_case_from_json(v: &Value) -> ImportCase {
@@ -1138,6 +1196,7 @@ pub fn import_case_from_json(v: &Value) -> ImportCase {
         p_state: v["p_state"].as_u64().unwrap() as usize,
         q_state: v["q_state"].as_u64().unwrap() as usize,
         fault: v["fault"].as_array().map(|a| (a[0].as_u64().unwrap() as usize, a[1].as_i64().unwrap() as i32)),
+        before: v["before"].as_u64().map(|b| b as usize),
     }
 }
 
